@@ -131,3 +131,14 @@ package prolog
 //@   property C12 C15
 //@   trusted
 //@   fresh-per-iteration convertAssign#2 0 reflect.New
+
+//@ -- the producer goroutine (sequential view): starts the search only when the consumer asks for an answer, keeps the
+//@ -- error the search ends with for Err, and closes `next` when it is over so that Next can tell
+//@ func (*Interpreter).QueryContext$1
+//@   property C12
+//@   nosafety
+//@   trusted-frame
+//@   bind fok, ferr = engine.(*Promise).Force#1
+//@   at-call engine.Call requires[the-search-starts-only-when-an-answer-is-asked-for] received(more)
+//@   ensures[next-is-closed-when-the-search-is-over] ghost("closed:next") == 1
+//@   ensures[the-error-the-search-ended-with-is-kept-for-err] called(ferr) && ferr != nil ==> sols.err == ferr
